@@ -1088,7 +1088,7 @@ impl Property for C12 {
     }
 
     fn cases(&self, tier: Tier) -> u32 {
-        tier.pick(2_500, 12_000)
+        tier.pick(6_000, 24_000)
     }
 
     fn max_shrink_iters(&self) -> u32 {
